@@ -114,6 +114,7 @@ def matrix(seeds):
             return os.path.basename(sdir), seed, rr.returncode
         finally:
             shutil.rmtree(d, ignore_errors=True)
+    dirs = [d for d in dirs if not json.load(open(os.path.join(d, 'meta.json'))).get('obsolete')]
     jobs = [(d, s) for d in dirs for s in seeds]
     res = {}
     with ThreadPoolExecutor(max_workers=int(os.environ.get('MATRIX_JOBS', '2'))) as ex:
